@@ -163,4 +163,17 @@ CLAIMED["C13"] = dict(
          "stream comparison. Partial (named _partial): the general splice theorem is not proved. Hypothesis: included "
          "files are detected as the parent's source form (one recorded finding when not).",
     technique="Rocq proof (push-back/first-directory/unresolved-include laws of the include model) + model-vs-reader stream correspondence + include-split search")
+CLAIMED["C17"] = dict(
+    design_ref="DESIGN.md 4 (C17), 3.5",
+    text="Theorems: the Gallina model of ParserFactory.create/_setup, run on the class declarations read off the live "
+         "Fortran2003 module and Fortran2008 package, computes exactly the registry the real factory builds, for both "
+         "standards (closed by computation on every run); exactly one 2003 rule (Stop_Code) has a 2008 alternative list "
+         "that is not a superset by rule name, hence for every other rule no override drops an alternative (lifted "
+         "with a proved soundness lemma); the F2008-only rules are absent from the 2003 registry. Search: generated "
+         "F2003 programs through both parsers (same text modulo case outside literals), programs with F2008-only "
+         "constructs (12 single-construct programs + generated): 2003 rejects, 2008 accepts.",
+    note="Trusted: Coq kernel (vm_compute over the dumped declarations, no axioms); tools/translate_registry.py "
+         "(reflective dump of inspect.getmembers and Base.subclasses). Partial: that a 2008 override's match() accepts "
+         "at least what its 2003 namesake accepts is statement-level and only checked end-to-end.",
+    technique="Rocq proof by computation on regenerated registry tables (model of _setup = real registry; no alternative dropped) + both-parser search")
 NOT_CLAIMED = {}
